@@ -426,6 +426,8 @@ def ace_st(draw, platform: str = "ios", version: str = "0", kmax: int = 4, group
                 p["v"] = p["v"][:1]
                 p["nm"] = p["nm"][:1]
             rec[side] = p
+        if rec["sp"] and draw(st.integers(0, 7)) == 5:
+            rec["dp"] = dict(rec["sp"])  # the same expression on both sides (RTP ranges, gt 1023 on both ...)
     if proto == 6 and draw(st.integers(0, 9)) < 3:
         pool = TCP_FLAGS + (["established"] if established else [])
         rec["flags"] = draw(st.lists(st.sampled_from(pool), min_size=1, max_size=3, unique=True))
